@@ -12,12 +12,16 @@
   `npInterp` / `linspace` (TaurexModel/NpInterp.lean); Python's `int()` / int → float are the parameters `pyInt` / `toF`,
   whose properties are explicit hypotheses; the cumsum trick of `movingaverage` equals the model's window means over ℝ only
   (`src_movingaverage`), it enters the generic `src_two_layer_gas` as the hypothesis `hma`.
+  `Chemistry.get_gas_mix_profile` is translated with the `@property` getters it reads (`activeGases`, `inactiveGases`,
+  `activeGasMixProfile`, `inactiveGasMixProfile` of `AutoChemistry`: optional 2-D array, optional index array) and tied to the
+  model's `getGasMixProfile` in the object state `determine_active_inactive` leaves (`src_get_gas_mix_profile`).
   A source change that alters one of these functions makes the corresponding theorem fail to check.
 -/
 import TaurexModel.Gen.SrcC10
 import TaurexModel.Chemistry
 import Proofs.C10Src
 import Proofs.SeqSrcReal
+import Proofs.C10Lemmas
 set_option linter.unusedSectionVars false
 
 namespace Taurex.C10Src
@@ -346,5 +350,76 @@ theorem src_movingaverage (a : List ℝ) (w : Nat) (hw : 1 ≤ w) (toF : Int →
   obtain ⟨h1, h2, h3⟩ := ma_cumsum a w hw (toF (Int.ofNat w)) (hF w)
   unfold Gen.SrcC10.movingaverage
   simp only [h1, h2, Bool.not_true, Bool.false_eq_true, if_false, h3]
+
+/-! ### the look-up of one gas -/
+
+/-- **`Chemistry.get_gas_mix_profile(name)`** with the `@property` getters it reads (`activeGases` / `inactiveGases`: the
+    attributes `_active` / `_inactive`; `activeGasMixProfile` / `inactiveGasMixProfile`: `raise Exception` while
+    `self.mixProfile` is None, `None` while the mask is None, else `self.mixProfile[mask]`), on an object whose attributes
+    `(_active, _active_mask, _inactive, _inactive_mask)` are what the regenerated `determine_active_inactive` leaves and whose
+    `mixProfile` is the 2-D array `mix`: the row the model's `getGasMixProfile` returns, `KeyError` where the model says
+    `none`.  The other exits of the translated text (`ValueError` of `list.index`, `TypeError` of subscripting the `None` a
+    getter returns for an empty mask, `Exception`) are unreachable in this state: a name found in `_active` makes the mask
+    non-empty.  Generic in the element type, core only. -/
+theorem src_get_gas_mix_profile {β : Type} (gases avail : List String) (mix : List (List β)) (name : String) :
+    Gen.SrcC10.get_gas_mix_profile name
+        (Gen.SrcC10.determine_active_inactive avail gases).1
+        (Gen.SrcC10.determine_active_inactive avail gases).2.1
+        (Gen.SrcC10.determine_active_inactive avail gases).2.2.1
+        (Gen.SrcC10.determine_active_inactive avail gases).2.2.2 (some mix)
+      = (getGasMixProfile gases avail mix name).elim (Except.error "KeyError") Except.ok := by
+  rw [src_determine_active_inactive]
+  unfold Gen.SrcC10.get_gas_mix_profile Gen.SrcC10.auto_activeGases Gen.SrcC10.auto_inactiveGases
+    Gen.SrcC10.auto_activeGasMixProfile Gen.SrcC10.auto_inactiveGasMixProfile getGasMixProfile
+  have hne : ∀ (keep : String → Bool), (gases.filter keep).contains name = true →
+      (maskFrom keep gases 0).isEmpty = false := by
+    intro keep h
+    have hl := maskFrom_length keep gases 0
+    cases hm : maskFrom keep gases 0 with
+    | nil =>
+      rw [hm] at hl
+      have : gases.filter keep = [] := List.length_eq_zero_iff.1 hl.symm
+      rw [this] at h; simp at h
+    | cons a t => rfl
+  by_cases ha : (activeGases gases avail).contains name = true
+  · have h1 : (activeMask gases avail).isEmpty = false := hne _ ha
+    simp only [ha, h1, Bool.not_true, Bool.false_eq_true, ↓reduceIte, Option.elim, selectRows, Gen.Np.take]
+  · have ha' : (activeGases gases avail).contains name = false := by simpa using ha
+    by_cases hi : (inactiveGases gases avail).contains name = true
+    · have h1 : (inactiveMask gases avail).isEmpty = false := hne _ hi
+      simp only [ha', hi, h1, Bool.not_true, Bool.false_eq_true, ↓reduceIte, Option.elim, selectRows, Gen.Np.take]
+    · have hi' : (inactiveGases gases avail).contains name = false := by simpa using hi
+      simp only [ha', hi', Bool.false_eq_true, ↓reduceIte, Option.elim]
+
+/-- the same before `initialize_chemistry` has run (`self.mixProfile` is None): the getter raises `Exception` for a gas of
+    the mixture, and an unknown name is still a `KeyError` -/
+theorem src_get_gas_mix_profile_uninit {β : Type} (gases avail : List String) (name : String) :
+    Gen.SrcC10.get_gas_mix_profile (α := β) name
+        (Gen.SrcC10.determine_active_inactive avail gases).1
+        (Gen.SrcC10.determine_active_inactive avail gases).2.1
+        (Gen.SrcC10.determine_active_inactive avail gases).2.2.1
+        (Gen.SrcC10.determine_active_inactive avail gases).2.2.2 none
+      = if gases.contains name then Except.error "Exception" else Except.error "KeyError" := by
+  rw [src_determine_active_inactive]
+  unfold Gen.SrcC10.get_gas_mix_profile Gen.SrcC10.auto_activeGases Gen.SrcC10.auto_inactiveGases
+    Gen.SrcC10.auto_activeGasMixProfile Gen.SrcC10.auto_inactiveGasMixProfile
+  by_cases hg : name ∈ gases
+  · by_cases ha : avail.contains name = true
+    · have h : (activeGases gases avail).contains name = true := by
+        simpa [activeGases] using And.intro hg (by simpa using ha)
+      have hc : gases.contains name = true := by simpa using hg
+      simp only [h, hc, Bool.not_true, Bool.false_eq_true, ↓reduceIte, Option.elim]
+    · have h : (activeGases gases avail).contains name = false := by
+        simp [activeGases]; intro _; simpa using ha
+      have h2 : (inactiveGases gases avail).contains name = true := by
+        simpa [inactiveGases] using And.intro hg (by simpa using ha)
+      have hc : gases.contains name = true := by simpa using hg
+      simp only [h, h2, hc, Bool.not_true, Bool.false_eq_true, ↓reduceIte, Option.elim]
+  · have h : (activeGases gases avail).contains name = false := by
+      simp [activeGases]; intro h; exact absurd h hg
+    have h2 : (inactiveGases gases avail).contains name = false := by
+      simp [inactiveGases]; intro h; exact absurd h hg
+    have hc : gases.contains name = false := by simpa using hg
+    simp only [h, h2, hc, Bool.false_eq_true, ↓reduceIte]
 
 end Taurex.C10Src
